@@ -11,6 +11,7 @@ import GooseVerif.Model.Tr
 import GooseVerif.Model.Scope
 import GooseVerif.Model.Core
 import GooseVerif.Model.Heap
+import GooseVerif.Model.Conc
 
 def main (args : List String) : IO UInt32 := do
   match args with
@@ -31,6 +32,11 @@ def main (args : List String) : IO UInt32 := do
   | ["heap"] => Driver.lineLoop (fun (_ : Unit) ws => ((), GooseVerif.Model.Heap.run ws)) (); return 0
   | ["heapgo"] => Driver.lineLoop (fun (_ : Unit) ws => ((), GooseVerif.Model.Heap.runGoToks ws)) (); return 0
   | ["heapt"] => Driver.lineLoop (fun (_ : Unit) ws => ((), GooseVerif.Model.Heap.runTToks ws)) (); return 0
+  | ["conc"] => Driver.lineLoop (fun (_ : Unit) ws => ((), GooseVerif.Model.Conc.run ws)) (); return 0
+  | ["concx"] => Driver.lineLoop (fun (_ : Unit) ws => ((), GooseVerif.Model.Conc.runExplore 1 ws)) (); return 0
+  | ["concxa"] => Driver.lineLoop (fun (_ : Unit) ws => ((), GooseVerif.Model.Conc.runExplore 3 ws)) (); return 0
+  | ["conct"] => Driver.lineLoop (fun (_ : Unit) ws => ((), GooseVerif.Model.Conc.runExploreT .strict ws)) (); return 0
+  | ["conctp"] => Driver.lineLoop (fun (_ : Unit) ws => ((), GooseVerif.Model.Conc.runExploreT .perennial ws)) (); return 0
   | ["core"] => Driver.lineLoop (fun (_ : Unit) ws => ((), GooseVerif.Model.Core.run ws)) (); return 0
   | ["corego"] => Driver.lineLoop (fun (_ : Unit) ws => ((), GooseVerif.Model.Core.runGoToks ws)) (); return 0
   | ["corewf"] => Driver.lineLoop (fun (_ : Unit) ws => ((), GooseVerif.Model.Core.runWf ws)) (); return 0
